@@ -220,3 +220,119 @@ Example C16_birthday_examples :
   locate_birthday [0; 10; 10; 10; 9000; 9000; 20000; 50000]%Z 100000%Z = Some 6%Z /\
   locate_birthday [5]%Z 0%Z = Some 0%Z.
 Proof. vm_compute. repeat split. Qed.
+
+(** * (c) From the recovered state to the balance the wallet reports (C01)
+
+    The chain is translated into a universe of the transaction-store model
+    ([universe_of]: same ids and inputs, output amounts, credited outputs =
+    the outputs paying a wallet path with the change flag of the branch,
+    coinbase flag [cb id]) and the transactions recovery records ([p_txs], in
+    order, with their heights) into the history of [Confirm] events that
+    addRelevantTx applies to the store ([history_of]).  Under the hypotheses
+    of (a) and the well-formedness the store model asks of a universe
+    ([chain_txs_wf]: ids increase along the chain and every input names a
+    smaller id - the rank convention of Tx/Hist.v -, inputs that name a chain
+    transaction name one of its outputs, amounts positive, no outpoint spent
+    twice, coinbase transactions without inputs), this history is
+    chain-consistent for a well-formed universe; hence by C01 the store's
+    Balance(minconf 1) at the tip equals the ledger balance of the history's
+    facts, and that is the sum of the model's final unspent wallet outputs
+    that are mature (not an immature coinbase output) - the chain's true
+    wallet balance. *)
+From Verif Require Import Tx.Store Tx.Ledger Tx.Hist Recovery.RecoveryLedger.
+
+Theorem C16_recovered_balance_is_ledger_balance :
+  forall (invalid_child : scope -> bool -> index -> bool) (inv_bound : N),
+    (forall s b i, invalid_child s b i = true -> (i < inv_bound)%N) ->
+  forall scopes : list scope, List.NoDup scopes ->
+  forall (W : N) (bs : nat) (bday : N) (chain : list block) (cuts : list N) (cb : N -> bool),
+    let all := scanned_chain bday chain in
+    within_window invalid_child scopes W all ->
+    chain_txs_wf cb (txs_of all) ->
+    (forall c, In c cuts -> (c <= N.of_nat (length chain))%N) ->
+    In (N.of_nat (length chain)) cuts ->
+    let p := recovery_runs invalid_child inv_bound scopes W bs bday cuts chain fresh_pstate in
+    let U := universe_of cb (txs_of all) in
+    let H := history_of (p_txs p) in
+    let tip := Z.of_nat (length chain) in
+    wf_universe U = true /\ chain_consistent U H = true /\
+    balance U (st (run U H)) 1 tip (clock (run U H)) =
+      spec_balance U (fs (spec_run U H)) 1 tip (clock (run U H)) /\
+    spec_balance U (fs (spec_run U H)) 1 tip (clock (run U H)) =
+      mature_sum cb (p_txs p) tip (p_unspent p).
+Proof. exact recovered_balance_is_ledger_balance. Qed.
+Print Assumptions C16_recovered_balance_is_ledger_balance.
+
+(** Parts of it that hold for every well-formed chain, whatever was recorded:
+    the translated universe is well formed and the ledger's recorded list is a
+    chain-consistent history. *)
+Theorem C16_translation_wellformed_and_consistent :
+  forall cb txs, ledger_wf cb txs ->
+    wf_universe (universe_of cb txs) = true /\
+    chain_consistent (universe_of cb txs) (history_of (fst (ledger txs))) = true.
+Proof. intros cb txs Hwf. split; [exact (universe_wf cb txs Hwf)|exact (history_consistent cb txs Hwf)]. Qed.
+Print Assumptions C16_translation_wellformed_and_consistent.
+
+(** Non-vacuity: ids are ranks (the foreign funding outpoint has id 1);
+    block 1 funds external index 0, block 2 spends it with change to internal
+    index 0, block 3 holds a coinbase (id 30) paying external index 1 - still
+    immature at the tip, so the balance is the change output alone. *)
+Definition bal_chain : list block :=
+  [ [ {| Recovery.t_id := 10; Recovery.t_ins := [(1, 0)]%N;
+         Recovery.t_outs := [pay (0, false, 0)%N 5000] |} ];
+    [ {| Recovery.t_id := 20; Recovery.t_ins := [(10, 0)]%N;
+         Recovery.t_outs := [other 4000; pay (0, true, 0)%N 900] |} ];
+    [ {| Recovery.t_id := 30; Recovery.t_ins := [];
+         Recovery.t_outs := [pay (0, false, 1)%N 50] |} ] ]%N.
+Definition bal_cb (id : N) : bool := N.eqb id 30.
+
+Example C16_balance_nonvacuous :
+  let p := recovery_runs no_inv 0 ex_scopes 2 2000 0 [3%N] bal_chain fresh_pstate in
+  let U := universe_of bal_cb (txs_of (scanned_chain 0 bal_chain)) in
+  let H := history_of (p_txs p) in
+  wf_universe U = true /\ chain_consistent U H = true /\
+  p_unspent p = [((20, 1)%N, 900%Z); ((30, 0)%N, 50%Z)] /\
+  balance U (st (run U H)) 1 3 (clock (run U H)) = 900%Z /\
+  mature_sum bal_cb (p_txs p) 3 (p_unspent p) = 900%Z /\
+  balance U (st (run U H)) 1 102 (clock (run U H)) = 950%Z /\
+  mature_sum bal_cb (p_txs p) 102 (p_unspent p) = 950%Z.
+Proof. vm_compute. repeat split. Qed.
+
+(** ... and the chain satisfies the hypotheses of the theorem. *)
+Example C16_balance_hypotheses_satisfiable :
+  chain_txs_wf bal_cb (txs_of (scanned_chain 0 bal_chain)) /\
+  within_window no_inv ex_scopes 2 (scanned_chain 0 bal_chain).
+Proof.
+  split.
+  - assert (E : txs_of (scanned_chain 0 bal_chain) =
+                [ (1%N, {| Recovery.t_id := 10; Recovery.t_ins := [(1, 0)]%N;
+                           Recovery.t_outs := [pay (0, false, 0)%N 5000] |});
+                  (2%N, {| Recovery.t_id := 20; Recovery.t_ins := [(10, 0)]%N;
+                           Recovery.t_outs := [other 4000; pay (0, true, 0)%N 900] |});
+                  (3%N, {| Recovery.t_id := 30; Recovery.t_ins := [];
+                           Recovery.t_outs := [pay (0, false, 1)%N 50] |}) ]) by reflexivity.
+    rewrite E. clear E.
+    split.
+    + vm_compute. repeat constructor.
+    + intros x Hx. apply In_elem_of in Hx; simpl in Hx. destruct Hx as [<- | [<- | [<- | [] ] ] ]; simpl; (split; [discriminate|]);
+        intros o Ho; apply In_elem_of in Ho; simpl in Ho; try (destruct Ho as [<- | [] ]; vm_compute; reflexivity); destruct Ho.
+    + intros x y o Hx Hy Ho Ey. apply In_elem_of in Hx; simpl in Hx. apply In_elem_of in Hy; simpl in Hy.
+      destruct Hx as [<- | [<- | [<- | [] ] ] ]; apply In_elem_of in Ho; simpl in Ho;
+        try (destruct Ho as [<- | [] ]); try (destruct Ho);
+        destruct Hy as [<- | [<- | [<- | [] ] ] ]; simpl in Ey; try discriminate Ey; simpl; lia.
+    + intros x o Hx Ho. apply In_elem_of in Hx; simpl in Hx.
+      destruct Hx as [<- | [<- | [<- | [] ] ] ]; apply In_elem_of in Ho; simpl in Ho;
+        repeat (destruct Ho as [<-|Ho]; [simpl; lia|]); destruct Ho.
+    + apply NoDup_iff_ListNoDup. vm_compute. repeat constructor; simpl; intuition discriminate.
+    + intros x Hx Hcb. apply In_elem_of in Hx; simpl in Hx. destruct Hx as [<- | [<- | [<- | [] ] ] ]; simpl in *; try discriminate Hcb; reflexivity.
+  - intros pre x post E. unfold scanned_chain, bal_chain in E. simpl in E.
+    intros k i Hi. unfold paid_on in Hi. apply found_indices_In in Hi.
+    destruct pre as [|x1 pre]; [|destruct pre as [|x2 pre]; [|destruct pre as [|x3 pre]]].
+    + injection E as E1 E2. subst x. simpl in Hi.
+      destruct Hi as [Hi | [] ]; injection Hi as Hk Hi'; subst k i; vm_compute; repeat split; auto 10.
+    + injection E as E1 E2 E3. subst x x1. simpl in Hi.
+      destruct Hi as [Hi | [] ]; injection Hi as Hk Hi'; subst k i; vm_compute; repeat split; auto 10.
+    + injection E as E1 E2 E3 E4. subst x x1 x2. simpl in Hi.
+      destruct Hi as [Hi | [] ]; injection Hi as Hk Hi'; subst k i; vm_compute; repeat split; auto 10.
+    + exfalso. injection E as E1 E2 E3 E4. destruct pre; discriminate.
+Qed.
